@@ -95,6 +95,14 @@ theorem state_after_catch_is_state_at_error (r : Rec) (dyn : Dyn) (f : Val) (arg
   simp only [List.isEmpty_cons, Bool.false_eq_true, ↓reduceIte, List.headD_cons, List.tail_cons]
   exact evals_bind_ok (evals_tryLua_lua h) (evals_pure _ _)
 
+/-- whatever the protected function had already computed (e.g. the values of a `return` interrupted by a raising
+    `__close` handler), a failed `pcall` has exactly two results -/
+theorem pcall_error_has_two_results (r : Rec) (dyn : Dyn) (f : Val) (args : List Val) {s v hd s' res s''}
+    (h : Evals (r.call ⟨0 :: dyn.stack, none⟩ f args) s (.error (.lua v hd)) s')
+    (hp : Evals (builtinCall r dyn .pcall (f :: args)) s (.ok res) s'') : res.length = 2 := by
+  have := (Evals.det hp (state_after_catch_is_state_at_error r dyn f args h)).1
+  cases this; rfl
+
 /-- `state_consistent_after_catch` (2): … and that store extends the one before the call: every cell (local
     variable, upvalue), table and closure that existed is still there, the input is unchanged and the
     events emitted before the error are all still in the trace (with any fuel, any function, any error) -/
@@ -414,5 +422,17 @@ example : (match run default 40 [.local_ 1 [("t", .none)] [.table []],
                          .paren (.call (.index (.var "coroutine") (.str "resume".toUTF8)) [.var "co"])]] [] with
            | .done rets _ => rets
            | _ => []) = [.bool false, .bool true, .ofString "dead", .bool false] := by decide +kernel
+
+def strE (s : String) : Expr := .str s.toUTF8
+def setmt (t m : Expr) : Expr := .call (.var "setmetatable") [t, m]
+
+/-- a `__close` handler raising during `return 10, 20` under pcall: exactly two results, `false` and the error value -/
+example : (match run default 40 [
+      .local_ 1 [("f", .none)] [.func (.mk [] false [
+        .local_ 2 [("c", .close)] [setmt (.table []) (.table [.named (strE "__close") (.func (.mk ["o", "e"] false [.callS 2 (.call (.var "error") [strE "boom", .int 0#64])]))])],
+        .return_ 3 [.int 10#64, .int 20#64]])],
+      .return_ 5 [.call (.var "select") [strE "#", .call (.var "pcall") [.var "f"]], .call (.var "pcall") [.var "f"]]] [] with
+    | .done rets _ => rets
+    | _ => []) = [.int 2#64, .bool false, .ofString "boom"] := by decide +kernel
 
 end GoluaVerif.Props.C11
